@@ -1,21 +1,23 @@
 /* C12 - contract of read(2) plus checking memmove for the harnesses over
  * lib/sqfs/src/io/istream.c (file_istream_t, 128 KiB buffer - never
- * bit-blasted: memmove is a checking witness stub, read writes one witness
- * byte).
+ * bit-blasted, never even written by the stubs).
  *
  * Stream level: position 0 is the first byte the consumer has not taken yet
  * (buffer[buffer_offset] at harness entry). g_spos is the stream position of
  * the next byte the kernel will deliver. At EVERY call the kernel may deliver
- * any 1..n bytes, report end of file (0) or fail with any errno. For one
- * arbitrary stream position g_w the stream's byte value is g_wval; whoever
- * moves that byte (kernel, memmove) moves the value - g_w is unconstrained,
- * so what is proved for it holds for every position. Payload bytes other
- * than the witness are not modelled; the functions under proof never read
- * payload.
+ * any 1..n bytes, report end of file (0) or fail with any errno.
+ *
+ * Contents are tracked by placement: for one arbitrary stream position g_w,
+ * g_wat is the buffer index at which that stream byte currently lives
+ * (C12_NOWHERE if it is not in the buffer). read() places it, memmove() moves
+ * it, and any later write over its place is an obligation failure
+ * (no_clobber). g_w is unconstrained, so "buffer[k] holds stream byte k"
+ * proved for g_w holds for every position.
  */
 #ifndef C12_READ_ENV_H
 #define C12_READ_ENV_H
 #include "C12/c12_env.h"
+#define C12_NOWHERE ((size_t)-1)
 
 int g_fd;
 uint8_t *g_bufbase;  /* file->buffer */
@@ -27,7 +29,7 @@ bool g_zero;         /* a read returned 0 (end of file) */
 uint64_t g_fuel;
 unsigned g_calls;
 uint64_t g_w;        /* witness stream position */
-uint8_t g_wval;      /* the stream's byte there */
+size_t g_wat;        /* buffer index where that byte lives, or C12_NOWHERE */
 unsigned g_moves;    /* memmove calls */
 
 static void c12_read_pre(int fd, void *buf, size_t n);
@@ -55,23 +57,36 @@ ssize_t read(int fd, void *buf, size_t n)
 	} else if (r == 0) {
 		g_zero = true;
 	} else {
+		size_t bi = (size_t)((uint8_t *)buf - g_bufbase);
+		VERIF_ASSERT(g_wat == C12_NOWHERE ||
+			     !(g_wat >= bi && g_wat - bi < (size_t)r),
+			     "C12." C12_FN ".no_clobber");
 		if (g_w >= g_spos && g_w - g_spos < (uint64_t)r)
-			((uint8_t *)buf)[g_w - g_spos] = g_wval;
+			g_wat = bi + (size_t)(g_w - g_spos);
 		g_spos += (uint64_t)r;
 	}
 	return r;
 }
 
-/* checking witness memmove: bounds of both ranges are obligations; the one
- * byte that matters (the witness, if it lies in the moved range) is moved */
+/* checking memmove: bounds of both ranges are obligations; the tracked
+ * stream byte moves with the range, and must not be overwritten by it */
 void *memmove(void *dst, const void *src, size_t n)
 {
+	size_t di, si;
+
 	c12_memmove_pre(dst, src, n);
 	VERIF_ASSERT(VERIF_R_OK(src, n) && VERIF_W_OK(dst, n),
 		     "C12." C12_FN ".memmove_bounds");
 	g_moves++;
-	if (g_w < n)
-		((uint8_t *)dst)[g_w] = ((const uint8_t *)src)[g_w];
+	di = (size_t)((uint8_t *)dst - g_bufbase);
+	si = (size_t)((const uint8_t *)src - g_bufbase);
+	if (g_wat != C12_NOWHERE) {
+		if (g_wat >= si && g_wat - si < n)
+			g_wat = di + (g_wat - si);
+		else
+			VERIF_ASSERT(!(g_wat >= di && g_wat - di < n),
+				     "C12." C12_FN ".no_clobber");
+	}
 	return dst;
 }
 #endif
